@@ -199,7 +199,13 @@ func TestWorker(t *testing.T) {
 				sum.ViolRuns++
 				if nviol < maxViol {
 					nviol++
-					emit(Line{T: "viol", I: i, Viol: vs, Scenario: sc, Hash: fmt.Sprintf("%016x", res.Hash)})
+					vl := Line{T: "viol", I: i, Viol: vs, Scenario: sc, Hash: fmt.Sprintf("%016x", res.Hash)}
+					if len(res.Trace) < 4000 {
+						for k := range res.Trace {
+							vl.Trace = append(vl.Trace, res.Trace[k].Human())
+						}
+					}
+					emit(vl)
 					w.Flush()
 				}
 			}
